@@ -56,12 +56,19 @@ def coq_make(targets, timeout=3000):
     rc, out, dt = sh(['make', '-j%d' % NPROC] + targets, cwd=COQ, timeout=timeout)
     return rc == 0, out, dt
 
+def prop_files(prop):
+    """props/Cxx.v and props/Cxx_*.v that are registered in _CoqProject"""
+    reg = open(f'{COQ}/_CoqProject').read().split()
+    return [x for x in reg if re.fullmatch(r'props/%s(_\w+)?\.v' % prop, x)]
+
 def theorem_names(prop):
-    path = f'{COQ}/props/{prop}.v'
-    if not os.path.exists(path):
-        return []
-    src = open(path).read()
-    return re.findall(r'^\s*(?:Theorem|Lemma|Example)\s+(%s_\w+)' % prop, src, re.M)
+    names = []
+    for rel in prop_files(prop):
+        src = open(f'{COQ}/{rel}').read()
+        for n in re.findall(r'^\s*(?:Theorem|Lemma|Example)\s+(%s_\w+)' % prop, src, re.M):
+            if n not in names:
+                names.append(n)
+    return names
 
 def forbidden_scan():
     hits = []
@@ -91,7 +98,8 @@ def print_assumptions(prop, names):
     os.makedirs(f'{WORK}/{prop}', exist_ok=True)
     q = f'{WORK}/{prop}/assum.v'
     with open(q, 'w') as f:
-        f.write('From WV Require Import %s.\n' % prop)
+        for rel in prop_files(prop):
+            f.write('From WV Require Import %s.\n' % os.path.basename(rel)[:-2])
         for n in names:
             f.write('Goal True. idtac "@@ %s". exact I. Qed.\nPrint Assumptions %s.\n' % (n, n))
     rc, out, _ = sh(['coqc', '-Q', 'gen', 'WV', '-Q', 'model', 'WV', '-Q', 'spec', 'WV', '-Q', 'proofs', 'WV',
